@@ -26,11 +26,12 @@ import CopVerif.Gen.GaussTransform
     `k ≠ d` raises `ValueError`; `k = 0` already fails in `np.column_stack` (`ValueError`);
     `multivariate_normal.cdf` raises `ValueError` for every `k ≠ d` and for an empty batch.
   * **Near-singular stored correlation** (finding `cumulative_distribution:raises[near-singular
-    correlation]`): `probability_density` passes `allow_singular=True`, `cumulative_distribution`
-    does not, so for a stored correlation that scipy deems singular (`Corr.singular`) the CDF raises
-    `LinAlgError` (a `ValueError`) for EVERY query.  The flag of the cdf call is read from the source
-    (`Gen.GaussTransform.cdfAllowSingular`), so a repair that passes `allow_singular=True` is followed
-    by the model without edits.
+    correlation]`, since repaired in /repo): scipy deems a covariance singular (`Corr.singular`) when
+    an eigenvalue is `≤ 1e6·eps·max` (cond ≳ 4.5e9), while `fit` only regularises beyond cond 4.5e15;
+    without `allow_singular=True` both scipy calls raise `LinAlgError` (a `ValueError`) for EVERY
+    query.  `probability_density` always passed the flag; `cumulative_distribution` did not.  The
+    flag of the cdf call is read from the source (`Gen.GaussTransform.cdfAllowSingular`), so the
+    model follows the code in either state.
   * An executable zero-mean MVN density (Cholesky, forward substitution) polymorphic in the numeric
     signature: run at `Float` against scipy on the real scores, reasoned about at `ℝ`.
 -/
